@@ -353,9 +353,88 @@ def rule_literal_escapes(ctx):
         arms[_v(a["pat"])] = "quote_string" if W in cs else "debug" if any("new_debug" in c for c in cs) else "display" if any("new_display" in c for c in cs) else "?"
     ctx.check(arms.get("String") == "quote_string", rule, "printer:String", "string literals are printed with %s, not with the inverse of the "
               "parser's escape decoder" % arms.get("String"), facts.bodies()[fn]["loc"], detail={"printers": arms})
+    # floats: `{:?}` of a non-finite value is an identifier (`inf`), so the Debug arm must come after an arm guarded by a finiteness test
+    guarded = False
+    float_ok = False
+    for a in m["arms"]:
+        if _v(a["pat"]) != "Float":
+            continue
+        g = a.get("guard")
+        if g is not None and any(re.search(r"f64>::(is_infinite|is_finite|is_nan)$", c) for _, c in H.calls(g)):
+            guarded = True
+            continue
+        cs = [c for _, c in H.calls(a["body"])]
+        float_ok = guarded or not any("new_debug" in c or "new_display" in c for c in cs)
+    ctx.check(float_ok, rule, "printer:Float", "float literals are printed with Debug / Display on every value: an overflowing literal "
+              "(`1e999`) is an infinity, which prints as the identifier `inf`; a finiteness-guarded arm has to come first",
+              facts.bodies()[fn]["loc"], detail={"finiteness_guard": guarded})
+    # metadata strings: the same writer table as quote_string, no Debug
+    MD = "<zydeco_syntax::Meta as core::fmt::Display>::fmt"
+    hm = facts.hir(MD)
+    if hm is None:
+        ctx.anchor_lost(rule, MD + " not found")
+    else:
+        ctx.fn(MD)
+        mm = A.find_match_on(hm["body"], lambda n: True)
+        for a in mm["arms"]:
+            if _v(a["pat"]) != "String":
+                continue
+            cs = [c for _, c in H.calls(a["body"])]
+            tbl = {}
+            inner = next((x for x in H.walk(a["body"]) if H.kind(x) == "Match" and not x.get("src") and len(x["arms"]) >= 3), None)
+            for b in (inner["arms"] if inner else []):
+                q = A.strip_or(b["pat"])
+                if H.kind(q) in ("Lit", "Expr"):
+                    tbl[_lit(q)] = next((_lit(x) for x in H.walk(b["body"]) if H.kind(x) == "Lit" and "str" in (x.get("lit") or {})), None)
+            ctx.check(not any("new_debug" in c for c in cs) and tbl == writer, rule, "printer:Meta::String",
+                      "metadata strings (`@[doc(\"..\")]`) are printed %s: the surface lexer decodes only %s, anything else (Debug's "
+                      "`\\u{..}`) is read back as different text" % ("with Debug" if any("new_debug" in c for c in cs) else
+                                                                     "with the table %s" % tbl, sorted(writer)),
+                      facts.bodies()[MD]["loc"], detail={"table": tbl, "quote_string": writer})
     ctx.check(arms.get("Char") == "debug", rule, "printer:Char", "char literals are printed with %s (audited: Debug; the CharLit language "
               "is printable ASCII plus \\n \\r \\t, on which char's Debug emits exactly the escapes apply_char_escapes decodes)" % arms.get("Char"),
               facts.bodies()[fn]["loc"], detail={"printer": arms.get("Char")})
+
+
+def rule_directive_bounds(ctx):
+    """a number taken from a format directive that the printer materialises (columns of indentation) is bounded"""
+    rule = "directive-bounds"
+    facts = ctx.facts
+    ctx.rule(rule, "IndentWidth::new, the only constructor of an indentation width from a user number (who-constructs), rejects every "
+                   "value above a constant of at most 65535: the printer allocates that many columns per nesting level of every line, "
+                   "so an unbounded `@[format(indent(N))]` exhausts memory or aborts instead of formatting or reporting")
+    IW = "zydeco_surface::textual::pretty::config::IndentWidth"
+    fn = IW + "::new"
+    h = facts.hir(fn)
+    if h is None:
+        ctx.anchor_lost(rule, fn + " not found")
+        return
+    ctx.fn(fn)
+    bound = None
+    for x in H.walk(h["body"]):
+        if H.kind(x) == "Binary" and x.get("op") in ("Gt", "Ge") and H.path_local(x["a"]):
+            rhs = H.peel(x["b"])
+            if H.kind(rhs) == "Lit":
+                bound = _lit(rhs)
+            else:
+                d = H.path_def(rhs) or A.sexpr(rhs, None)
+                hb = facts.hir(d) if isinstance(d, str) else None
+                bound = A.sexpr(hb["body"], None) if hb else A.sexpr(rhs, None)
+    try:
+        ok = bound is not None and 0 < int(str(bound)) <= 65535
+    except ValueError:
+        ok = False
+    ctx.check(ok, rule, "IndentWidth::new:upper-bound", "IndentWidth::new accepts every value up to %s: `@[format(indent(N))]` with a huge N "
+              "makes `zydeco fmt` allocate N columns per line (out of memory / abort)" % bound, facts.bodies()[fn]["loc"],
+              detail={"upper_bound": str(bound)})
+    # who constructs an IndentWidth: new, DEFAULT, Clone
+    from .c01 import who_constructs
+    aggs = who_constructs(facts, IW)
+    makers = sorted(f for f in aggs if "::tests::" not in f)
+    allowed = {IW + "::new", IW + "::DEFAULT", "<%s as core::clone::Clone>::clone" % IW}
+    ctx.check(set(makers) <= allowed and (not aggs or IW + "::new" in makers), rule, "IndentWidth:constructors",
+              "an IndentWidth is built outside IndentWidth::new / DEFAULT (%s): the bound can be bypassed" % sorted(set(makers) - allowed),
+              None, detail={"constructors": makers})
 
 
 def _lit(n):
